@@ -1146,6 +1146,32 @@ impl<C: Cursor> Cursor for SnapshotCursor<'_, C> {
     }
 }
 
+//////////////////////////////////////////// OutputPins ////////////////////////////////////////////
+
+// The references a compaction holds on the outputs it has linked into place, released when the
+// compaction is done with them, however it ends.
+struct OutputPins<'a> {
+    tree: &'a LsmTree,
+    pinned: Vec<Setsum>,
+    // Did the manifest edit that lists the outputs go through?  If it did not, or if it is not
+    // known to have, the outputs stay where they are:  The edit may have reached the manifest even
+    // though applying it returned an error.
+    listed: bool,
+}
+
+impl Drop for OutputPins<'_> {
+    fn drop(&mut self) {
+        for setsum in self.pinned.drain(..) {
+            if self.listed {
+                self.tree.unref_file(setsum);
+            } else {
+                // NOTE:  This will at worst leave an orphan, like any abandoned compaction.
+                self.tree.references.dec_then(setsum, || {});
+            }
+        }
+    }
+}
+
 ////////////////////////////////////////////// LsmTree /////////////////////////////////////////////
 
 pub struct LsmTree {
@@ -1553,6 +1579,13 @@ impl LsmTree {
     ) -> Result<(), SError> {
         let mut outputs = vec![];
         let mut output_setsum = Setsum::default();
+        // The outputs linked into place so far, each with a reference of its own until the new
+        // version (which takes its own references) is installed or this function gives up.
+        let mut pins = OutputPins {
+            tree: self,
+            pinned: vec![],
+            listed: false,
+        };
         // NOTE(rescrv):  Sometimes compaction generates the same file as input and output.  We are
         // not to remove the file in that case.
         for path in paths.iter() {
@@ -1563,7 +1596,16 @@ impl LsmTree {
             mani_edit.add(&setsum.hexdigest())?;
             let new_path = SST_FILE(&self.root, setsum);
             COMPACTION_LINK.click();
-            match hard_link(path, &new_path) {
+            // NOTE:  A file of this name may still be in place although no version of the tree
+            // lists it, held there by a reader's snapshot.  The link then answers AlreadyExists and
+            // the output is that file.  Take a reference to the output together with the link, so
+            // that the snapshot going away before the new version is installed does not move the
+            // file to the trash under the manifest edit that is about to list it.
+            let linked = self
+                .references
+                .inc_then(setsum, || hard_link(path, &new_path));
+            pins.pinned.push(setsum);
+            match linked {
                 Ok(_) => {}
                 Err(err) if err.kind() == ErrorKind::AlreadyExists => {}
                 err @ Err(_) => {
@@ -1595,6 +1637,7 @@ impl LsmTree {
         #[cfg(rescrv_blue_verif)]
         crate::verif::probe("compaction.before_manifest");
         let ret = self.apply_manifest_compaction(compaction, discard_setsum, mani_edit, outputs);
+        pins.listed = ret.is_ok();
         #[cfg(rescrv_blue_verif)]
         crate::verif::probe("compaction.after_manifest");
         ret
@@ -1810,14 +1853,20 @@ impl LsmTree {
             return;
         }
         for setsum in version.setsums() {
-            if self.references.dec(setsum) {
-                let sst_path = SST_FILE(&self.root, setsum);
-                let trash_path = TRASH_SST(&self.root, setsum);
-                // SAFETY(rescrv):  This will just leave an orphan.
-                // The verifier will pick up on there being orphans.
-                let _ = rename(sst_path, trash_path);
-            }
+            self.unref_file(setsum);
         }
+    }
+
+    /// Drop one reference to a file; the last reference moves it to the trash, and does so before
+    /// anyone can take a new reference to a file of that name.
+    fn unref_file(&self, setsum: Setsum) {
+        self.references.dec_then(setsum, || {
+            let sst_path = SST_FILE(&self.root, setsum);
+            let trash_path = TRASH_SST(&self.root, setsum);
+            // SAFETY(rescrv):  This will just leave an orphan.
+            // The verifier will pick up on there being orphans.
+            let _ = rename(sst_path, trash_path);
+        });
     }
 
     /// Verification hook: the files of the current version, level by level, in the order the
